@@ -78,7 +78,13 @@ def tlc_cases(tier, seed, v):
         return _tlc(f"EventWalk.tla simulate MaxLen={maxlen}", dict(MaxLen=maxlen, Profile=2, EmitMod=1, EmitSel=0), simw, f"sim{i}", timeout=1700,
                     simulate=f"num={num}", depth=14 * maxlen + 12, seed=seed * 7 + i + 1, coverage=False)
 
-    with ThreadPoolExecutor(max_workers=3) as pool:
+    def job_focus():
+        # steady-state focus (Profile 3): every dataset of <= 3 (thorough 4) records over {observation, dose, SS=1 dose, SS=2 dose}
+        return _tlc("EventWalk.tla steady-state focus", dict(MaxLen=3 if tier == "quick" else 4, Profile=3, EmitMod=1, EmitSel=0), 4, "focus",
+                    timeout=1700, coverage=False)
+
+    with ThreadPoolExecutor(max_workers=4) as pool:
+        ffocus = pool.submit(job_focus)
         fex = pool.submit(job_ex)
         fsim = [pool.submit(job_sim, i) for i in range(len(sims))]
         res = fex.result()
@@ -91,11 +97,21 @@ def tlc_cases(tier, seed, v):
     for r2 in simres:
         sim_states += r2.generated
         cases += [c for t, c in r2.prints if t == "CASE"]
+    rf = ffocus.result()
+    fcases = [c for t, c in rf.prints if t == "CASE"]
+    for c in fcases:
+        c["focus"] = "ss"
+    if not any(o["tc"] == "sskeep" and any(r["ss"] == 2 for r in c["data"]) for c in fcases for o in c["out"]):
+        raise core.MachineryError("steady-state focus run emitted no tie with an SS=2 dose")
+    n_sim = len(cases) - n_ex
+    cases += fcases
+    sim_states += rf.distinct
+    v.add_coverage(tlc_ss_focus={"distinct_states": rf.distinct, "cases_emitted": len(fcases)})
     v.add_coverage(states=sim_states, transitions=sim_states)
     v.add_coverage(tlc_exhaustive={"constants": ex, "distinct_states": res.distinct, "depth": res.depth, "wall_s": round(res.wall, 1),
                                    "cases_emitted": n_ex},
                    tlc_simulation={"runs": [{"MaxLen": m, "behaviours": n * simw} for m, n in sims], "states": sim_states,
-                                   "cases_emitted": len(cases) - n_ex})
+                                   "cases_emitted": n_sim})
     if not cases:
         raise core.MachineryError("EventWalk.tla emitted no cases")
     return cases
@@ -540,7 +556,12 @@ def run(tier, seed, v, cases):
     # ones: they carry the interactions
     short = [g for g in groups if len(g["data"]) <= 2][: budget // 8]
     longer = [g for g in groups if len(g["data"]) > 2][: budget - len(short)]
-    work = [(g, variants_for(g, rng)) for g in short + longer]
+    # steady-state focus datasets: all those with a dose / observation tie at a steady-state dose (the walker's classes
+    # sskeep / choice), on top of the budget
+    taken = {id(h) for h in short + longer}
+    ssf = [g for g in groups if g.get("focus") == "ss" and any(o["tc"] in ("sskeep", "choice") for o in g["out"])
+           and id(g) not in taken][: max(budget // 3, 50)]
+    work = [(g, variants_for(g, rng)) for g in short + longer + ssf]
     for g, var in work[:60]:
         render(g, var)  # fills the ColumnInfo cache before forking
     results = core.pmap(check_dataset, work, procs=16, chunk=4)
